@@ -350,6 +350,22 @@ func TestC17(t *testing.T) {
 		}
 	}
 	eb.done(true)
+	// magnitudes: record bodies around powers of two and multiples of 65536 (where buffered or chunked code paths
+	// switch), each with a short last line, a full last line and an exact multiple of the line width
+	eg := enumPart(t, c17Prop, st, "large-records")
+	for _, n := range magnitudeLens(thorough()) {
+		if n < 4000 {
+			continue
+		}
+		for _, m := range []int{n, n - n%70, n - n%70 + 69} {
+			for _, cr := range []bool{false, true} {
+				if !eg.try(c17Case{Mode: "roundtrip", CRLF: cr, Recs: []c17Rec{{Desc: "big", Len: m, Seed: m % 89, Step: 1}, {Desc: "after", Len: 71, Seed: 2, Step: 3}}}) {
+					return
+				}
+			}
+		}
+	}
+	eg.done(true)
 	rapidPart(t, c17Prop, st, "rapid", pick(4000, 60000), c17Gen)
 }
 
